@@ -257,12 +257,17 @@ Definition filter_of (cx : ctx) (sp : subproof) : option filter :=
   end.
 Definition restr_true_legacy (R : request) (P : presentation) (cx : ctx) : bool :=
   let rp := p_rp P in
+  (* referents the verifier takes as served by a credential (an unrestricted referent that the holder
+     attested itself is not one of them, whatever else the presentation says about it) *)
+  let served := List.filter (fun '(r, ai) => negb (is_self_attested P r ai)) (rq_attrs R) in
   forallb (fun '(r, ai) =>
              match ai_restr ai with
              | None => true
              | Some q =>
-                 if unrestricted (Some q) then true else
-                 negb (mem r (keys (rp_self rp))) &&
+                 (* an empty restriction on a referent the holder attested itself is no restriction; on a
+                    referent served by a credential it is evaluated like any other ($and [] is true, $or [] false) *)
+                 if is_self_attested P r ai then true else
+                 (* the credential the presentation maps the referent to *)
                  let bound := match assoc r (rp_unrev rp) with Some i => Some i | None =>
                               match assoc r (rp_groups rp) with Some (i, _) => Some i | None =>
                               match assoc r (rp_revealed rp) with Some (i, _, _) => Some i | None => None end end end in
@@ -270,11 +275,15 @@ Definition restr_true_legacy (R : request) (P : presentation) (cx : ctx) : bool 
                  | Some i => match nthZ (p_proofs P) i with
                              | Some sp => match filter_of cx sp with
                                           | Some f =>
+                                              (* values revealed under the referent; where two names of a group
+                                                 normalise to one key the later one counts, as in the code's map *)
                                               let m := match ai_name ai with
                                                        | Some n => [(cv n, option_map (fun x => snd (fst x)) (assoc r (rp_revealed rp)))]
-                                                       | None => map (fun n => (cv n, match assoc r (rp_groups rp) with
-                                                                                  | Some g => option_map fst (assoc n (snd g)) | None => None end))
-                                                                     (match ai_names ai with Some ns => ns | None => [] end)
+                                                       | None =>
+                                                           let ns := match ai_names ai with Some ns => ns | None => [] end in
+                                                           match assoc r (rp_groups rp) with
+                                                           | Some g => rev (map (fun n => (cv n, option_map fst (assoc n (snd g)))) ns)
+                                                           | None => map (fun n => (cv n, None)) ns end
                                                        end in
                                               sem m f q
                                           | None => false end
@@ -289,7 +298,7 @@ Definition restr_true_legacy (R : request) (P : presentation) (cx : ctx) : bool 
                  | Some i => match nthZ (p_proofs P) i with
                              | Some sp => match filter_of cx sp with
                                           | Some f =>
-                                              let rv := flat_map (fun '(ar, (j, raw, _)) => if j =? i then match assoc ar (rq_attrs R) with
+                                              let rv := flat_map (fun '(ar, (j, raw, _)) => if j =? i then match assoc ar served with
                                                                      | Some ai => match ai_name ai with Some n => [(cv n, Some raw)] | None => [] end
                                                                      | None => [] end else []) (rp_revealed rp) in
                                               let gv := flat_map (fun '(_, (j, vals)) => if j =? i then map (fun '(n, (raw, _)) => (cv n, Some raw)) vals else []) (rp_groups rp) in
